@@ -153,7 +153,7 @@ def plan(tier, seed):
     # ---- a few meshes far beyond the enumerated bound (thousands of elements, counts that are not powers of two): size
     # thresholds inside the operators (chunking, buffers) only act there; normal-strain fields only, so that the doubled-shear
     # finding does not taint these cases
-    big = [[70, 60, 0], [64, 65, 0], [17, 17, 15]] if quick else [[70, 60, 0], [64, 65, 0], [97, 43, 0], [130, 33, 0], [17, 17, 15], [16, 16, 17], [21, 13, 16]]
+    big = [[70, 60, 0], [64, 65, 0], [17, 17, 15], [300, 250, 0], [45, 40, 38]] if quick else [[70, 60, 0], [64, 65, 0], [97, 43, 0], [130, 33, 0], [17, 17, 15], [16, 16, 17], [21, 13, 16], [300, 250, 0], [45, 40, 38], [257, 256, 0], [512, 129, 0]]
     for g in big:
         for kind, extra in (("strain", {"plane": "stress", "field": "normal", "x": XCLS[0], "nu": NUCLS[0]}),
                             ("average", {"ndof": 2, "off": OFFS[0]})):
